@@ -45,7 +45,7 @@ def _run(case, ctx):
     ks = G.build_calc(mol, model, case["calc"], uks, level=case["mol"]["grid_level"])
     ni = ks._numint
     chans = G.build_dm(mol, case["dm"])[0]
-    fam = "+".join(f for f in ("nldf", "sdmx") if case["model"][f]) or "sl"
+    fam = "+".join(f for f in ("nldf", "nlof", "sdmx") if case["model"].get(f)) or "sl"
     ctx.event("family=" + fam)
     ctx.event("sl=" + case["model"]["sl"])
     ctx.event("uks" if uks else "rks")
@@ -60,6 +60,12 @@ def _run(case, ctx):
         ctx.event("interp=" + case["calc"]["interp"])
     if case["model"]["sdmx"]:
         ctx.event("sdmx=" + case["model"]["sdmx"]["cls"])
+    if case["model"].get("nlof"):
+        nl = case["model"]["nlof"]
+        ctx.event("nlof:npow=%d" % len(nl["slist"]))
+        for key in ("nk0", "nk1", "nd1", "ndd"):
+            ctx.event("nlof:%s=%s" % (key, "0" if nl[key] == 0 else ">0"))
+        ctx.event("nlof:dots=%d/%d" % (len(nl["l1_dots"]), len(nl["ld_dots"])))
 
     def energy(dms):
         if uks:
@@ -123,3 +129,4 @@ def vmat_fd_nldf(case, ctx):
           tolerances=TOL, shrink=False)
 def vmat_fd_sdmx(case, ctx):
     _run(case, ctx)
+
